@@ -519,6 +519,7 @@ def run(tier):
     rule_R8(res, prog)
     rule_R9(res, prog)
     rule_R10(res, prog)
+    rule_R11(res, prog)
     return res.finish()
 
 
@@ -826,4 +827,59 @@ def rule_R10(res, prog):
                              fn.relfile, t["ln"], "is not tested as `< 0`" if fail_k is None else "reaches the non-error return at line %s" % bad),
                          file=fn.relfile, line=t["ln"])
         res.instance(rid, "tlsVerify:%s `not in supportedSigAlgs` leaves with an error" % t["ln"], f2 is None, finding=f2)
+    res.floor(rid, 2)
+
+
+def rule_R11(res, prog):
+    """'enabled by both endpoints (build and per-session options)': matrixSslSetCipherSuiteEnabledStatus re-enables a suite by
+    zeroing its slot of ssl->disabledCiphers[], so the list has holes.  In sslGetCipherSpec the scan of that list must visit
+    every slot: its loop is bounded by the array length only, and the only branch on an element is the membership test
+    against the requested id."""
+    import re
+    from sa import cfgutil as cu
+    rid = "C07.R11"
+    res.rule(rid, "sslGetCipherSpec scans the whole per-session disabled-suite list (bound = array length, no early stop on an element)")
+    fn = prog.fn("sslGetCipherSpec")
+    fld = [f for f in prog.record("ssl")["fields"] if f["n"] == "disabledCiphers"]
+    if not fld or not fld[0].get("alen"):
+        raise AnalysisBroken("C07.R11: ssl_t.disabledCiphers is no longer an array")
+    N = fld[0]["alen"]
+    idxs = set()
+    elem_tests = []
+    for b in fn.blocks:
+        t = b.get("term")
+        if t is None or "c" not in t:
+            continue
+        tx = cu.ftext(t["c"])
+        mm = re.search(r"disabledCiphers\[(\w+)\]", tx)
+        if mm:
+            idxs.add(mm.group(1))
+            elem_tests.append((t["ln"], tx))
+    if not idxs:
+        raise AnalysisBroken("C07.R11: sslGetCipherSpec no longer tests ssl->disabledCiphers[]")
+    bad = [(ln, tx) for (ln, tx) in elem_tests if not re.match(r"^\(ssl->disabledCiphers\[\w+\] == id\)$", tx)]
+    f_ = None
+    if bad:
+        f_ = Finding(PROP, rid, fn.name, "scan of the disabled-suite list depends on an element's value",
+                     "%s:%s sslGetCipherSpec(): branch `%s` on an element of ssl->disabledCiphers[] other than the membership test: the "
+                     "list has holes (a re-enabled suite zeroes its slot), so stopping or skipping on a value leaves later entries unseen "
+                     "and a suite disabled for this session is negotiated" % (fn.relfile, bad[0][0], bad[0][1]), file=fn.relfile, line=bad[0][0])
+    res.instance(rid, "sslGetCipherSpec: the only branch on disabledCiphers[] elements is `== id`", not bad, finding=f_)
+    bounds = []
+    for b in fn.blocks:
+        t = b.get("term")
+        if t is None or "c" not in t or t.get("k") not in ("for", "while", "and", "or", "do"):
+            continue
+        tx = cu.ftext(t["c"])
+        mm = re.match(r"^\((\w+) < (\d+)\)$", tx)
+        if mm and mm.group(1) in idxs:
+            bounds.append((t["ln"], int(mm.group(2))))
+    okb = bool(bounds) and all(v == N for (_, v) in bounds)
+    f2 = None
+    if not okb:
+        f2 = Finding(PROP, rid, fn.name, "scan bound is not the length of the disabled-suite list",
+                     "%s:%s sslGetCipherSpec(): the loop over ssl->disabledCiphers[] is bounded by %s, the array has %d slots" % (
+                         fn.relfile, bounds[0][0] if bounds else fn.line, [v for (_, v) in bounds] or "no constant", N),
+                     file=fn.relfile, line=bounds[0][0] if bounds else fn.line)
+    res.instance(rid, "sslGetCipherSpec: loop bound over disabledCiphers[] = %d slots" % N, okb, finding=f2)
     res.floor(rid, 2)
